@@ -6,7 +6,7 @@ corpus = sys.argv[1]
 rows = {}
 for f in sys.argv[2:]:
     for l in open(f):
-        m = re.match(r'/verif/' + corpus + r'/(C\d+)/(\d+) (C\d+) violations=(\d+) :: (.*)', l)
+        m = re.match(r'/verif/' + corpus + r'/(C\d+)/(\d+) (C\d+) violations=(\d+)(?: replayed=\d+)? :: (.*)', l)
         if m:
             pid, n, chk, v, rest = m.groups()
             ob = re.findall(r'obligation (\S+)', rest)
